@@ -165,3 +165,82 @@ def str_(u):
 def str_requires(u):
     spec_parse.split_netloc(u.netloc)
     return not u.netloc or not u.path or u.path[0] == "/"
+
+
+# ---------------------------------------------------------------- modifiers (C11, C17, C19)
+
+def authority(u):
+    """the four subcomponents as the modifiers see them: raw user, raw password, the host
+    as it is written in an authority (brackets around an IP-literal, '' if absent), port"""
+    user, password, host, p = spec_parse.split_netloc(u.netloc)
+    h = host_subcomponent(u)
+    return user, password, (h if h is not None else ""), p
+
+
+def with_port(u, port):
+    """C17: sets any valid port, clears on None, rejects bools, non-integers, out-of-range;
+    C11: every other component is unchanged"""
+    if port is not None:
+        if isinstance(port, bool) or not isinstance(port, int):
+            raise TypeError("port should be int or None")
+        if port < 0 or port > 65535:
+            raise ValueError("port must be between 0 and 65535")
+    if u.netloc == "":
+        raise ValueError("port replacement is not allowed for relative URLs")
+    user, password, host, _ = authority(u)
+    return U(u.scheme, spec_parse.make_netloc(user, password, host, port), u.path, u.query, u.fragment)
+
+
+def with_scheme(u, scheme):
+    if not isinstance(scheme, str):
+        raise TypeError("Invalid scheme type")
+    low = scheme.lower()
+    if u.netloc == "" and (low == "http" or low == "https" or low == "ws" or low == "wss" or low == "ftp"):
+        raise ValueError("scheme replacement is not allowed for relative URLs")
+    return U(low, u.netloc, u.path, u.query, u.fragment)
+
+
+def with_user(u, user):
+    """with_user(None) also drops the password, as documented"""
+    if user is not None and not isinstance(user, str):
+        raise TypeError("Invalid user type")
+    if u.netloc == "":
+        raise ValueError("user replacement is not allowed for relative URLs")
+    _, password, host, p = authority(u)
+    if user is None:
+        return U(u.scheme, spec_parse.make_netloc(None, None, host, p), u.path, u.query, u.fragment)
+    return U(u.scheme, spec_parse.make_netloc(spec_parse.QUOTER(user), password, host, p), u.path, u.query, u.fragment)
+
+
+def with_password(u, password):
+    if password is not None and not isinstance(password, str):
+        raise TypeError("Invalid password type")
+    if u.netloc == "":
+        raise ValueError("password replacement is not allowed for relative URLs")
+    user, _, host, p = authority(u)
+    pw = None if password is None else spec_parse.QUOTER(password)
+    return U(u.scheme, spec_parse.make_netloc(user, pw, host, p), u.path, u.query, u.fragment)
+
+
+def relative(u):
+    """only path, query and fragment are kept"""
+    if u.netloc == "":
+        raise ValueError("URL should be absolute")
+    return U("", "", u.path, u.query, u.fragment)
+
+
+def origin(u):
+    """only scheme, host and port are kept"""
+    if u.netloc == "":
+        raise ValueError("URL should be absolute")
+    if u.scheme == "":
+        raise ValueError("URL should have scheme")
+    _, _, host, p = authority(u)
+    if "@" in u.netloc:
+        return U(u.scheme, spec_parse.make_netloc(None, None, host, p), "", "", "")
+    return U(u.scheme, u.netloc, "", "", "")
+
+
+def origin_requires(u):
+    spec_parse.split_netloc(u.netloc)
+    return True
